@@ -23,7 +23,7 @@ const ProbeSchema = `directive @guard(tag: String) on FIELD_DEFINITION
 directive @mark(tag: String) on FIELD
 directive @goField(forceResolver: Boolean, name: String, omittable: Boolean) on INPUT_FIELD_DEFINITION | FIELD_DEFINITION
 
-interface Node { id: ID! name: String }
+interface Node { id: ID! name: String link: A }
 interface Named { name: String }
 
 type A implements Node & Named {
@@ -38,6 +38,7 @@ type A implements Node & Named {
   deep: [[A!]]! @goField(forceResolver: true)
   strictPeer: A! @goField(forceResolver: true)
   guarded: String @guard(tag: "g") @goField(forceResolver: true)
+  link: A @goField(forceResolver: true)
   inl: String
   inlStrict: String!
 }
@@ -46,6 +47,7 @@ type B implements Node {
   id: ID!
   name: String @goField(forceResolver: true)
   b1: String @goField(forceResolver: true)
+  link: A @goField(forceResolver: true)
   other: A! @goField(forceResolver: true)
   items: [Item!] @goField(forceResolver: true)
 }
